@@ -1161,7 +1161,7 @@ def _register():
         doc="recursive (--enforce-contract-rec), unbounded input_len: writes only out[0..512) ; 1 <= n <= 16, "
             "n == 1 iff a single chunk; both recursive calls and the parent layer stay inside cv_array")
     U["blake3_compress_subtree_wide_tbb"] = _u(
-        "blake3_compress_subtree_wide", ["C07"], harness="blake3_compress_subtree_wide", defs=["-DBLAKE3_USE_TBB"],
+        "blake3_compress_subtree_wide", ["C07", "C08"], harness="blake3_compress_subtree_wide", defs=["-DBLAKE3_USE_TBB"],
         replace=["blake3_simd_degree", "compress_chunks_parallel", "left_subtree_len", "compress_parents_parallel",
                  "blake3_compress_subtree_wide_join_tbb"],
         extra_trust=["blake3_tbb.cpp (C++/oneTBB) is not analysed: blake3_compress_subtree_wide_join_tbb is replaced by "
